@@ -250,6 +250,17 @@ structure Req (Wire : Type) where
   accept : Option (List Char) := none     -- raw `VGI-Session-Accept` value
   session : Option Wire := none           -- `VGI-Session` value after `.strip()`; `none` = absent or empty
   client : Nat := 0                        -- ghost
+  path : List Char := "/run".toList        -- `req.path` relative to the app's URL prefix (`/{method}`, `/{method}/init`, …)
+
+/-- the exemption test at the top of `_StickyMiddleware.process_request`, on the path relative to the app prefix
+(the exempt prefixes are `{prefix}/health` and `{prefix}/__session__`) -/
+def exemptPath (path : List Char) : Bool :=
+  Sticky.exemptSuffixes.any fun s =>
+    let p := s.toList
+    if Sticky.exemptCompare == "eq_or_subtree" then path == p || (p ++ ['/']).isPrefixOf path
+    else if Sticky.exemptCompare == "startswith" then p.isPrefixOf path
+    else if Sticky.exemptCompare == "eq" then path == p
+    else false
 
 /-- Python `str.isspace` restricted to Latin-1 (what a WSGI header value can carry) -/
 def isSpaceLatin1 (c : Char) : Bool := [9, 10, 11, 12, 13, 28, 29, 30, 31, 32, 133, 160].contains c.toNat
@@ -296,10 +307,19 @@ inductive Action where
   | close                                     -- `ctx.close_session()`
   | use                                       -- read `ctx.session`
   | noop
+  | reap (at_ : Nat)                          -- environment, while the method runs: a reaper tick whose clock reads `at_`
+  | shutdown                                  -- environment, while the method runs: `DrainHandle.shutdown()`
 deriving DecidableEq, Repr
+
+/-- an API call of the method (as opposed to something the environment does meanwhile) -/
+def Action.isApi : Action → Bool
+  | .reap _ => false
+  | .shutdown => false
+  | _ => true
 
 inductive MethodErr where
   | notOptedIn | alreadyActive | draining | sealFailed
+  | notAvailable            -- "sticky sessions not available on this transport" (no sink: the middleware was skipped)
 deriving DecidableEq, Repr
 
 inductive ActOut where
@@ -307,6 +327,7 @@ inductive ActOut where
   | closed (hit : Bool)
   | used (state : Option Nat)
   | noop
+  | env                      -- the environment acted
   | failed (e : MethodErr)
 deriving DecidableEq, Repr
 
@@ -342,16 +363,22 @@ def stepActionP (openResetsClosed : Bool) (cfg : Cfg) (wk : Nat) (ident : Identi
          .opened sid)
   | .close =>
     match rs.sc with
-    | none => (W, { rs with closed := Sticky.sinkCloseSetsClosed || rs.closed }, .closed false)
+    | none => (W, { rs with closed := Sticky.sinkCloseSetsClosed || rs.closed }, .closed false)   -- the callback reports a miss
     | some (sid, _) =>
       let (reg', hit, cl) := W.reg.close sid
       ({ W with reg := reg', closedLog := W.closedLog ++ cl },
        { rs with sc := none, lockHeld := if Sticky.closeSessionReleasesLock then none else rs.lockHeld,
-                 closed := Sticky.sinkCloseSetsClosed || rs.closed,
+                 closed := (Sticky.sinkCloseSetsClosed || (Sticky.sinkCloseOnHitOnly && hit)) || rs.closed,
                  mint := if Sticky.sinkCloseClearsMint then none else rs.mint },
        .closed hit)
   | .use => (W, rs, .used (rs.sc.map (·.2)))
   | .noop => (W, rs, .noop)
+  | .reap at_ =>
+    let (r, cl) := W.reg.drainExpired at_
+    ({ W with reg := r, closedLog := W.closedLog ++ cl }, rs, .env)
+  | .shutdown =>
+    let (r, cl) := W.reg.shutdown
+    ({ W with reg := r, closedLog := W.closedLog ++ cl }, rs, .env)
 
 /-- one API call of the method body, as extracted -/
 def stepAction (cfg : Cfg) (wk : Nat) (ident : Identity) (client : Nat) (W : World) (rs : RS) (a : Action) : World × RS × ActOut :=
@@ -401,6 +428,40 @@ def serve {Wire : Type} [DecidableEq Wire] (C : Codec Wire) (cfg : Cfg) (wk : Na
     (W₂, ⟨match err with | none => .ok | some e => .failed e,
           if emitSession then rs.mint.map C.enc else none,
           emitClose && rs.closed, log⟩)
+
+/-- one step of a method dispatched WITHOUT the sticky machinery (exempt path: no sink, no session context) -/
+def bypassStep (W : World) : Action → World × ActOut
+  | .open _ _ => (W, .failed .notAvailable)
+  | .close => (W, .failed .notAvailable)
+  | .use => (W, .used none)
+  | .noop => (W, .noop)
+  | .reap at_ =>
+    let (r, cl) := W.reg.drainExpired at_
+    ({ W with reg := r, closedLog := W.closedLog ++ cl }, .env)
+  | .shutdown =>
+    let (r, cl) := W.reg.shutdown
+    ({ W with reg := r, closedLog := W.closedLog ++ cl }, .env)
+
+def bypassRun (swallow : Bool) : World → List Action → World × List ActOut × Option MethodErr
+  | W, [] => (W, [], none)
+  | W, a :: as =>
+    match bypassStep W a with
+    | (W', .failed e) =>
+      if swallow then
+        let (W'', os, err) := bypassRun swallow W' as
+        (W'', .failed e :: os, err)
+      else (W', [.failed e], some e)
+    | (W', o) =>
+      let (W'', os, err) := bypassRun swallow W' as
+      (W'', o :: os, err)
+
+/-- a POST on an RPC route as the app handles it: exempt paths skip the sticky middleware altogether -/
+def handle {Wire : Type} [DecidableEq Wire] (C : Codec Wire) (cfg : Cfg) (wk : Nat) (W : World) (rq : Req Wire)
+    (script : List Action) (swallow : Bool) : World × Resp Wire :=
+  if exemptPath rq.path then
+    let (W', log, err) := bypassRun swallow W script
+    (W', ⟨match err with | none => .ok | some e => .failed e, none, false, log⟩)
+  else serve C cfg wk W rq script swallow
 
 def deleteExit (name : String) : Nat × Bool :=
   match Sticky.deleteExits.find? (fun x => x.1 == name) with
@@ -453,7 +514,7 @@ inductive Obs (Wire : Type) where
 
 def Net.step {Wire : Type} [DecidableEq Wire] (C : Codec Wire) (n : Net) : Op Wire → Net × Obs Wire
   | .call wk rq script swallow =>
-    let (W, r) := serve C (n.cfg wk) wk (n.world wk) rq script swallow
+    let (W, r) := handle C (n.cfg wk) wk (n.world wk) rq script swallow
     (n.put wk W, .resp r)
   | .delete wk rq =>
     let (W, (st, h)) := onDelete C (n.cfg wk) (n.world wk) rq
